@@ -529,8 +529,8 @@ func Enumerates(text string) bool {
 	if pr.Status == ref.ParseOK {
 		res = astEnumerates(pr.Node)
 	} else {
-		t := strings.ReplaceAll(text, "[*]", "")
-		res = strings.Contains(t, "*") || strings.Contains(t, "keys") || strings.Contains(t, "values") || strings.Contains(t, "items")
+		// not judged by the reference parser: be conservative
+		res = strings.Contains(text, "*") || strings.Contains(text, "keys") || strings.Contains(text, "values") || strings.Contains(text, "items")
 	}
 	if len(enumCache) > 50000 {
 		enumCache = map[string]bool{}
